@@ -1,4 +1,4 @@
-package cluster
+package cmd
 
 import (
 	"context"
@@ -15,6 +15,7 @@ import (
 	"time"
 
 	"github.com/mgtv-tech/redis-GunYu/config"
+	"github.com/mgtv-tech/redis-GunYu/pkg/cluster"
 	"github.com/mgtv-tech/redis-GunYu/verifshim/mc"
 	"github.com/mgtv-tech/redis-GunYu/verifshim/redisd"
 	"github.com/mgtv-tech/redis-GunYu/verifshim/vnet"
@@ -24,7 +25,7 @@ import (
 // C15 - at most one instance holds a source's leader lease at any time.
 //
 // Explicit-state breadth-first search. A state is an event history; it is reached by
-// replaying the history on FRESH objects: one real NewRedisCluster(...).NewElection(...)
+// replaying the history on FRESH objects: one real cluster.NewRedisCluster(...).NewElection(...)
 // per contender, talking through the real RedisConn / proto reader+writer to the redisd
 // double, which runs the ACTUAL Lua text of the two election scripts in its
 // mini-interpreter and takes its clock from the synctest bubble. Histories that reach
@@ -141,8 +142,8 @@ type c15Scenario struct {
 // SyncerCmd.Run does (RedisConn never reconnects by itself).
 type c15Contender struct {
 	id   string
-	cl   Cluster
-	el   Election
+	cl   cluster.Cluster
+	el   cluster.Election
 	conn int
 	// what the instance has been told
 	believes bool  // last campaign/renew answer was "leader" and it has not resigned since
@@ -170,7 +171,7 @@ func c15Connect(ctx context.Context, srv *redisd.Server, c *c15Contender, ttl in
 		c.cl.Close()
 	}
 	cfg := config.RedisConfig{Addresses: []string{c15Addr}, Type: config.RedisTypeStandalone, Otype: config.RedisTypeStandalone, Version: "7.2.0"}
-	cl, err := NewRedisCluster(ctx, cfg, ttl)
+	cl, err := cluster.NewRedisCluster(ctx, cfg, ttl)
 	if err != nil {
 		return err
 	}
@@ -260,8 +261,8 @@ func c15Run(t *testing.T, n, ttl int, events []int) (out c15Out) {
 					out.faults++
 				}
 				// ---- the call
-				var role ClusterRole
-				var info *RoleInfo
+				var role cluster.ClusterRole
+				var info *cluster.RoleInfo
 				var err error
 				switch op {
 				case opCampaign:
@@ -328,7 +329,7 @@ func c15Run(t *testing.T, n, ttl int, events []int) (out c15Out) {
 				told := false
 				switch op {
 				case opCampaign:
-					told = err == nil && role == RoleLeader
+					told = err == nil && role == cluster.RoleLeader
 				case opRenew:
 					told = err == nil
 				}
@@ -350,11 +351,11 @@ func c15Run(t *testing.T, n, ttl int, events []int) (out c15Out) {
 						viol("a "+opn+" by the holder (or with no unexpired lease) was not answered with leadership", "C15:denied-while-free:"+opn, det())
 						return
 					}
-					if answered && op == opRenew && !grant && !errors.Is(err, ErrNotLeader) {
-						viol("a failed renewal by a non-holder is not reported as ErrNotLeader", "C15:renew-nonholder-not-ErrNotLeader", det())
+					if answered && op == opRenew && !grant && !errors.Is(err, cluster.ErrNotLeader) {
+						viol("a failed renewal by a non-holder is not reported as cluster.ErrNotLeader", "C15:renew-nonholder-not-cluster.ErrNotLeader", det())
 						return
 					}
-					if answered && op == opCampaign && !grant && (err != nil || role != RoleFollower) {
+					if answered && op == opCampaign && !grant && (err != nil || role != cluster.RoleFollower) {
 						viol("a campaign against a held lease did not answer follower", "C15:campaign-held-not-follower", det())
 						return
 					}
@@ -541,6 +542,9 @@ func runC15(t *testing.T, rep *mc.Reporter) {
 		rep.Machinery("cannot load replay: "+err.Error(), nil)
 		return
 	} else if rp != nil {
+		if c15tReplay(t, rep, rp) {
+			return
+		}
 		var scn c15Scenario
 		if err := json.Unmarshal(rp.Scenario, &scn); err != nil {
 			rep.Machinery("bad replay scenario: "+err.Error(), nil)
@@ -695,4 +699,5 @@ func runC15(t *testing.T, rep *mc.Reporter) {
 			rep.Note(fmt.Sprintf("plan %d: contenders=%d ttl=%ds steps=%v depth=%d: new canonical states per BFS level %v", pi, pl.n, pl.ttl, pl.steps, pl.depth, levels))
 		}
 	}
+	runC15Ticker(t, rep, budget)
 }
